@@ -188,6 +188,8 @@
    BG_MAP_FRESH(Y_B(g)->edgeLabels) && D_WF_SAFE(Y_B(g)) && M_RANGE(Y_B(g)->edgeLabels) && \
    bg_exc == BG_EXC_NONE && BG_SCRATCH_CLEAN)
 
+/* multiplicity / weight stored for the unordered pair {G_P,G_Q} */
+#define U_MVAL_(m, F) (G_P <= G_Q ? M_VAL_PQ_(m, F) : M_VAL_QP_(m, F))
 #define U_TOUCHES(v) (G_P == (v) || G_Q == (v))
 /* fresh pointer parameters of an outlined loop over a graph */
 #define U_LOOP_FRESH(g)                                                       \
